@@ -848,6 +848,8 @@ class Interp:
                 d = deref(x) if not isinstance(x, (Str, Slice)) else x
                 if isinstance(d, Str):
                     return d.len()
+                if hasattr(d, 'abs_len'):
+                    return d.abs_len()
                 l, a, b = self.models.as_list(d)
                 return b - a
             if op == 'Neg':
